@@ -1,3 +1,477 @@
-From Coq Require Import List Bool Arith ZArith String Lia.
+(** C15 — proofs about the token-factory model: who can move a supply, who can move control,
+    creation, non-tf coins, conservation, and the link to the trace property [P]. *)
+From Coq Require Import List Bool Arith ZArith String Ascii Lia.
 Import ListNotations.
 Require Import Nib.C15.Model Nib.C15.Spec.
+Local Open Scope string_scope.
+Local Open Scope Z_scope.
+
+(* ------------------------------------------------------------------ strings.Split *)
+
+Lemma split_nonnil s : split_slash s <> [].
+Proof.
+  induction s as [|c r IH]; simpl; try discriminate.
+  destruct (Ascii.eqb c "/"%char); try discriminate.
+  destruct (split_slash r); try discriminate.
+Qed.
+
+Lemma split_app x y : split_slash (x ++ String "/" y) = (split_slash x ++ split_slash y)%list.
+Proof.
+  induction x as [|c x IH]; simpl.
+  - reflexivity.
+  - destruct (Ascii.eqb c "/"%char).
+    + rewrite IH. reflexivity.
+    + rewrite IH. destruct (split_slash x) as [|p ps] eqn:E.
+      * exfalso. eapply split_nonnil; eauto.
+      * reflexivity.
+Qed.
+
+Lemma split_single x p : split_slash x = [p] -> x = p.
+Proof.
+  revert p; induction x as [|c x IH]; intros p H; simpl in H.
+  - inversion H; auto.
+  - destruct (Ascii.eqb c "/"%char); try discriminate.
+    + destruct (split_slash x) eqn:E; [exfalso; eapply split_nonnil; eauto | discriminate].
+    + destruct (split_slash x) as [|q qs] eqn:E; [exfalso; eapply split_nonnil; eauto|].
+      inversion H; subst. f_equal. apply IH. reflexivity.
+Qed.
+
+Lemma split_tf : split_slash "tf" = ["tf"].
+Proof. reflexivity. Qed.
+
+(** a denom built by TFDenom.Denom() that validates parses back to exactly its creator and subdenom *)
+Lemma parse_tf_denom creator sub :
+  validate_denom (tf_denom creator sub) = true -> parse_denom (tf_denom creator sub) = Some (creator, sub).
+Proof.
+  unfold validate_denom, parse_denom, tf_denom.
+  change ("tf/" ++ creator ++ "/" ++ sub) with ("tf" ++ String "/" (creator ++ String "/" sub)).
+  rewrite !split_app, split_tf. simpl.
+  destruct (split_slash creator) as [|c1 cr] eqn:Ec; [exfalso; eapply split_nonnil; eauto|].
+  destruct (split_slash sub) as [|s1 sr] eqn:Es; [exfalso; eapply split_nonnil; eauto|].
+  destruct cr as [|c2 cr]; [destruct sr as [|s2 sr]|]; simpl.
+  - apply split_single in Ec. apply split_single in Es. subst.
+    destruct (nonempty c1 && nonempty s1); [reflexivity | discriminate].
+  - destruct sr; discriminate.
+  - destruct cr as [|c3 cr]; simpl; [destruct sr; simpl; discriminate|].
+    destruct cr; discriminate.
+Qed.
+
+Lemma parse_denom_inj d c1 s1 c2 s2 :
+  d = tf_denom c1 s1 -> d = tf_denom c2 s2 -> validate_denom d = true -> c1 = c2 /\ s1 = s2.
+Proof.
+  intros H1 H2 Hv. pose proof Hv as Hv2. rewrite H1 in Hv. rewrite H2 in Hv2.
+  apply parse_tf_denom in Hv. apply parse_tf_denom in Hv2. rewrite <- H1 in Hv. rewrite <- H2 in Hv2.
+  rewrite Hv in Hv2. inversion Hv2; auto.
+Qed.
+
+(* ------------------------------------------------------------------ maps *)
+
+Lemma upd_same {V} (f : string -> V) k v : upd f k v k = v.
+Proof. unfold upd. rewrite String.eqb_refl. reflexivity. Qed.
+
+Lemma upd_other {V} (f : string -> V) k v x : x <> k -> upd f k v x = f x.
+Proof. unfold upd. intro H. apply String.eqb_neq in H. rewrite H. reflexivity. Qed.
+
+Lemma upd2_same f a d v : upd2 f a d v a d = v.
+Proof. unfold upd2. rewrite !String.eqb_refl. reflexivity. Qed.
+
+Lemma upd2_other f a d v x y : (x <> a \/ y <> d) -> upd2 f a d v x y = f x y.
+Proof.
+  unfold upd2. intros [H|H]; apply String.eqb_neq in H; rewrite H; simpl; auto.
+  rewrite andb_false_r. reflexivity.
+Qed.
+
+Ltac brk H :=
+  repeat match type of H with
+  | (if ?c then _ else _) = Some _ => let E := fresh "E" in destruct c eqn:E; try discriminate H
+  | match ?x with Some _ => _ | None => _ end = Some _ => let E := fresh "E" in destruct x eqn:E; try discriminate H
+  end.
+
+Ltac conds :=
+  repeat match goal with
+  | H : _ && _ = true |- _ => apply andb_true_iff in H; destruct H
+  | H : String.eqb _ _ = true |- _ => apply String.eqb_eq in H
+  | H : (_ <? _) = true |- _ => apply Z.ltb_lt in H
+  | H : (_ <=? _) = true |- _ => apply Z.leb_le in H
+  end.
+
+(* ------------------------------------------------------------------ supply *)
+
+(** Who can move a supply, and by how much (per delivered message). *)
+Definition supply_mover (s s' : st) (o : op) (d : string) : Prop :=
+  (exists sender dv amt to, o = Mint sender d dv amt to /\ admins s d = Some sender /\
+     supply s' d = supply s d + amt /\ 0 < amt /\ validate_denom d = true) \/
+  (exists sender dv amt from, o = Burn sender d dv amt from /\ admins s d = Some sender /\
+     supply s' d = supply s d - amt /\ 0 < amt /\ validate_denom d = true).
+
+Definition own_native_burn (s s' : st) (o : op) (d : string) : Prop :=
+  exists sender dv amt, o = BurnNative sender d dv amt /\ supply s' d = supply s d - amt /\ 0 < amt /\
+    amt <= bal s sender d /\ bal s' sender d = bal s sender d - amt.
+
+Lemma supply_step blocked s o s' d :
+  step blocked s o = Some s' -> supply s' d <> supply s d ->
+  supply_mover s s' o d \/ own_native_burn s s' o d.
+Proof.
+  intros H Hne. destruct o; simpl in H; brk H; inversion H; subst; simpl in *; try congruence; conds; subst.
+  - (* Mint *)
+    destruct (String.eqb d denom) eqn:Ed.
+    + apply String.eqb_eq in Ed. subst. left. left. unfold coin_ok in *. conds.
+      exists s0, dv, amt, to. rewrite upd_same. repeat split; auto.
+    + apply String.eqb_neq in Ed. rewrite upd_other in Hne by auto. congruence.
+  - (* Burn *)
+    destruct (String.eqb d denom) eqn:Ed.
+    + apply String.eqb_eq in Ed. subst. left. right. unfold coin_ok in *. conds.
+      exists s0, dv, amt, from. rewrite upd_same. repeat split; auto.
+    + apply String.eqb_neq in Ed. rewrite upd_other in Hne by auto. congruence.
+  - (* BurnNative *)
+    destruct (String.eqb d denom) eqn:Ed.
+    + apply String.eqb_eq in Ed. subst. right. unfold coin_ok in *. conds.
+      exists sender, dv, amt. rewrite upd_same, upd2_same. repeat split; auto.
+    + apply String.eqb_neq in Ed. rewrite upd_other in Hne by auto. congruence.
+Qed.
+
+(** For every message except MsgBurnNative the statement holds to the letter. *)
+Lemma supply_step_strict blocked s o s' d :
+  step blocked s o = Some s' -> (forall sd dn dv amt, o <> BurnNative sd dn dv amt) ->
+  supply s' d <> supply s d -> supply_mover s s' o d.
+Proof.
+  intros H Hnb Hne. destruct (supply_step blocked s o s' d H Hne) as [Hm|(sd & dv & amt & Ho & _)]; auto.
+  exfalso. eapply Hnb; eauto.
+Qed.
+
+(* ------------------------------------------------------------------ control *)
+
+(** bank metadata exists for every registered denom (InsertDenom / unsafeInsertDenom write both) *)
+Definition inv (s : st) : Prop := forall d, admins s d <> None -> meta s d = true.
+
+Lemma inv_step blocked s o s' : step blocked s o = Some s' -> inv s -> inv s'.
+Proof.
+  intros H Hi d Hd. destruct o; simpl in H; brk H; inversion H; subst; simpl in *; auto.
+  - unfold upd in *. destruct (String.eqb d (tf_denom sender sub)); auto.
+  - unfold upd in Hd. destruct (String.eqb d denom) eqn:Ed; auto.
+    apply String.eqb_eq in Ed. subst. apply Hi. congruence.
+  - unfold upd. destruct (String.eqb d base); auto.
+Qed.
+
+Lemma admin_step blocked s o s' d :
+  inv s -> step blocked s o = Some s' -> admins s' d <> admins s d ->
+  (exists sender new nv, o = ChangeAdmin sender d new nv /\ admins s d = Some sender /\ admins s' d = Some new) \/
+  (exists sender sub, o = Create sender sub /\ d = tf_denom sender sub /\ admins s d = None /\
+     admins s' d = Some sender /\ parse_denom d = Some (sender, sub)).
+Proof.
+  intros Hi H Hne. destruct o; simpl in H; brk H; inversion H; subst; simpl in *; try congruence; conds; subst.
+  - (* Create *)
+    destruct (String.eqb d (tf_denom sender sub)) eqn:Ed.
+    + apply String.eqb_eq in Ed. subst. right. exists sender, sub. rewrite upd_same.
+      repeat split; auto.
+      * destruct (admins s (tf_denom sender sub)) eqn:Ea; auto.
+        assert (meta s (tf_denom sender sub) = true) by (apply Hi; congruence).
+        match goal with Hn : negb _ = true |- _ => rewrite H0 in Hn; discriminate Hn end.
+      * apply parse_tf_denom; auto.
+    + apply String.eqb_neq in Ed. rewrite upd_other in Hne by auto. congruence.
+  - (* ChangeAdmin *)
+    destruct (String.eqb d denom) eqn:Ed.
+    + apply String.eqb_eq in Ed. subst. left. exists s0, new_admin, na_valid. rewrite upd_same. auto.
+    + apply String.eqb_neq in Ed. rewrite upd_other in Hne by auto. congruence.
+Qed.
+
+(** creation: by the embedded creator, who becomes the first admin, of a denom that did not exist *)
+Lemma create_step blocked s sender sub s' :
+  inv s -> step blocked s (Create sender sub) = Some s' ->
+  admins s (tf_denom sender sub) = None /\ admins s' (tf_denom sender sub) = Some sender /\
+  parse_denom (tf_denom sender sub) = Some (sender, sub) /\ meta s' (tf_denom sender sub) = true.
+Proof.
+  intros Hi H. simpl in H. brk H. inversion H; subst; simpl. conds.
+  rewrite !upd_same. repeat split; auto.
+  - destruct (admins s (tf_denom sender sub)) eqn:Ea; auto.
+    assert (Hm : meta s (tf_denom sender sub) = true) by (apply Hi; congruence).
+    rewrite Hm in H1. discriminate.
+  - apply parse_tf_denom; auto.
+Qed.
+
+Lemma meta_monotone blocked s o s' d : step blocked s o = Some s' -> meta s d = true -> meta s' d = true.
+Proof.
+  intros H Hm. destruct o; simpl in H; brk H; inversion H; subst; simpl; auto;
+    unfold upd; destruct (String.eqb d _); auto.
+Qed.
+
+Lemma create_existing_rejected blocked s sender sub :
+  meta s (tf_denom sender sub) = true -> step blocked s (Create sender sub) = None.
+Proof. intro H. simpl. rewrite H, andb_false_r. reflexivity. Qed.
+
+Lemma run_meta_monotone blocked d : forall h s, meta s d = true -> meta (fst (run blocked s h)) d = true.
+Proof.
+  induction h as [|o r IH]; intros s H; simpl; auto.
+  unfold deliver. destruct (step blocked s o) as [s1|] eqn:E.
+  - specialize (IH s1 (meta_monotone _ _ _ _ _ E H)). destruct (run blocked s1 r). exact IH.
+  - specialize (IH s H). destruct (run blocked s r). exact IH.
+Qed.
+
+Lemma run_inv blocked : forall h s, inv s -> inv (fst (run blocked s h)).
+Proof.
+  induction h as [|o r IH]; intros s H; simpl; auto.
+  unfold deliver. destruct (step blocked s o) as [s1|] eqn:E.
+  - specialize (IH s1 (inv_step _ _ _ _ E H)). destruct (run blocked s1 r). exact IH.
+  - specialize (IH s H). destruct (run blocked s r). exact IH.
+Qed.
+
+(** once created, never again: after any history, a further creation of the same denom — by anyone
+    — is rejected *)
+Lemma create_once blocked s sender sub s1 h sender2 sub2 :
+  inv s -> step blocked s (Create sender sub) = Some s1 ->
+  tf_denom sender2 sub2 = tf_denom sender sub ->
+  step blocked (fst (run blocked s1 h)) (Create sender2 sub2) = None.
+Proof.
+  intros Hi H Heq. apply create_existing_rejected. rewrite Heq.
+  apply run_meta_monotone. destruct (create_step _ _ _ _ _ Hi H) as (_ & _ & _ & Hm). exact Hm.
+Qed.
+
+(** and only the embedded creator could have created it in the first place *)
+Lemma create_only_by_embedded_creator blocked s sender sub s' c sb :
+  step blocked s (Create sender sub) = Some s' -> parse_denom (tf_denom sender sub) = Some (c, sb) ->
+  c = sender /\ sb = sub.
+Proof.
+  intros H Hp. simpl in H. brk H. conds. apply parse_tf_denom in H0. rewrite H0 in Hp. inversion Hp; auto.
+Qed.
+
+(* ------------------------------------------------------------------ balances, non-tf coins *)
+
+(** exactly one account's balance of [d] moves, by the same amount as the supply *)
+Lemma conservation_step blocked s o s' d :
+  step blocked s o = Some s' ->
+  exists a, (forall a', a' <> a -> bal s' a' d = bal s a' d) /\
+            bal s' a d - bal s a d = supply s' d - supply s d.
+Proof.
+  intro H. destruct o; simpl in H; brk H; inversion H; subst; simpl in *;
+    try (exists ""; split; [reflexivity | lia]).
+  - exists (resolve to sender). split.
+    + intros a' Ha. apply upd2_other. auto.
+    + unfold upd2, upd. rewrite String.eqb_refl. simpl. destruct (String.eqb d denom); lia.
+  - exists (resolve from sender). split.
+    + intros a' Ha. apply upd2_other. auto.
+    + unfold upd2, upd. rewrite String.eqb_refl. simpl. destruct (String.eqb d denom); lia.
+  - exists sender. split.
+    + intros a' Ha. apply upd2_other. auto.
+    + unfold upd2, upd. rewrite String.eqb_refl. simpl. destruct (String.eqb d denom); lia.
+Qed.
+
+(** whose balance can go down: the burn-from account of an admin-signed Burn, or the signer of a
+    native burn; a balance goes up only as the mint-to of an admin-signed Mint *)
+Lemma balance_step blocked s o s' a d :
+  step blocked s o = Some s' -> bal s' a d <> bal s a d ->
+  (exists sender dv amt to, o = Mint sender d dv amt to /\ admins s d = Some sender /\ a = resolve to sender /\
+      bal s' a d = bal s a d + amt /\ 0 < amt /\ mem_str a blocked = false) \/
+  (exists sender dv amt from, o = Burn sender d dv amt from /\ admins s d = Some sender /\ a = resolve from sender /\
+      bal s' a d = bal s a d - amt /\ 0 < amt /\ amt <= bal s a d /\ mem_str a blocked = false) \/
+  (exists dv amt, o = BurnNative a d dv amt /\ bal s' a d = bal s a d - amt /\ 0 < amt /\ amt <= bal s a d).
+Proof.
+  intros H Hne. destruct o; simpl in H; brk H; inversion H; subst; simpl in *; try congruence; conds; subst.
+  - unfold upd2 in *. destruct (String.eqb a (resolve to s0) && String.eqb d denom) eqn:Ek; try congruence.
+    conds. subst. left. unfold coin_ok in *. conds. exists s0, dv, amt, to. repeat split; auto.
+  - unfold upd2 in *. destruct (String.eqb a (resolve from s0) && String.eqb d denom) eqn:Ek; try congruence.
+    conds. subst. right. left. unfold coin_ok in *. conds. exists s0, dv, amt, from. repeat split; auto.
+  - unfold upd2 in *. destruct (String.eqb a sender && String.eqb d denom) eqn:Ek; try congruence.
+    conds. subst. right. right. unfold coin_ok in *. conds. exists dv, amt. repeat split; auto.
+Qed.
+
+(** coins that are not token-factory denoms: never minted, and only the signer's own balance can
+    go down (MsgBurnNative) *)
+Lemma non_tf_step blocked s o s' d :
+  validate_denom d = false -> step blocked s o = Some s' ->
+  supply s' d <= supply s d /\
+  (forall a, bal s' a d <= bal s a d) /\
+  (forall a, bal s' a d < bal s a d -> a = sender_of o /\ exists dv amt, o = BurnNative a d dv amt).
+Proof.
+  intros Hv H.
+  assert (Hs : supply s' d <= supply s d).
+  { destruct (Z.eq_dec (supply s' d) (supply s d)) as [E|E]; [lia|].
+    destruct (supply_step _ _ _ _ _ H E) as [[(sd & dv & amt & to & _ & _ & _ & _ & Hv')|(sd & dv & amt & fr & _ & _ & _ & _ & Hv')]|(sd & dv & amt & _ & He & Hp & _)];
+      try congruence. lia. }
+  assert (Hb : forall a, bal s' a d <> bal s a d -> a = sender_of o /\ (exists dv amt, o = BurnNative a d dv amt) /\ bal s' a d < bal s a d).
+  { intros a E. destruct (balance_step _ _ _ _ _ _ H E) as [(sd & dv & amt & to & Ho & Ha & _)|[(sd & dv & amt & fr & Ho & Ha & _)|(dv & amt & Ho & Hb & Hp & _)]].
+    - exfalso. subst o. simpl in H. brk H. conds. congruence.
+    - exfalso. subst o. simpl in H. brk H. conds. congruence.
+    - subst o. simpl. split; auto. split; [eauto | lia]. }
+  split; auto. split.
+  - intro a. destruct (Z.eq_dec (bal s' a d) (bal s a d)) as [E|E]; [lia|]. destruct (Hb a E) as (_ & _ & Hl). lia.
+  - intros a Hl. destruct (Hb a) as (H1 & H2 & _); [lia|]. auto.
+Qed.
+
+(** over histories: the supply of a non-tf coin never increases *)
+Lemma non_tf_history blocked d : validate_denom d = false ->
+  forall h s, supply (fst (run blocked s h)) d <= supply s d.
+Proof.
+  intros Hv. induction h as [|o r IH]; intro s; simpl; [lia|].
+  unfold deliver. destruct (step blocked s o) as [s1|] eqn:E.
+  - specialize (IH s1). destruct (run blocked s1 r). simpl in *.
+    destruct (non_tf_step _ _ _ _ _ Hv E) as [Hs _]. lia.
+  - specialize (IH s). destruct (run blocked s r). exact IH.
+Qed.
+
+(** over histories: while [a] is not the admin of [d] and nobody hands [d] over, no message
+    signed by [a] moves the supply of the tf denom [d] except a native burn of its own coins *)
+Lemma rejected_changes_nothing blocked s o : snd (deliver blocked s o) = false -> fst (deliver blocked s o) = s.
+Proof. unfold deliver. destruct (step blocked s o); simpl; auto. discriminate. Qed.
+
+(** a former admin is rejected from the very next message *)
+Lemma handover_demotes blocked s old d new nv s' :
+  step blocked s (ChangeAdmin old d new nv) = Some s' -> new <> old ->
+  admins s' d = Some new /\
+  (forall dv amt t, step blocked s' (Mint old d dv amt t) = None) /\
+  (forall dv amt t, step blocked s' (Burn old d dv amt t) = None) /\
+  (forall n2 nv2, step blocked s' (ChangeAdmin old d n2 nv2) = None) /\
+  (forall mv, step blocked s' (SetMeta old d mv) = None).
+Proof.
+  intros H Hne. simpl in H. brk H. inversion H; subst; simpl. conds. subst.
+  assert (Hn : String.eqb s0 new = false) by (apply String.eqb_neq; auto).
+  rewrite !upd_same. split; auto. repeat split; intros; simpl; rewrite ?upd_same, ?Hn;
+    repeat match goal with |- (if ?c then _ else _) = None => destruct c; auto end.
+Qed.
+
+(** a denom without admin ("" — renounced at genesis) or with an admin string nobody can sign as
+    stays frozen: no Mint / Burn / ChangeAdmin / SetMeta on it is ever accepted from [sender] *)
+Lemma not_admin_rejected blocked s sender d :
+  admins s d <> Some sender ->
+  (forall dv amt t, step blocked s (Mint sender d dv amt t) = None) /\
+  (forall dv amt t, step blocked s (Burn sender d dv amt t) = None) /\
+  (forall n nv, step blocked s (ChangeAdmin sender d n nv) = None) /\
+  (forall mv, step blocked s (SetMeta sender d mv) = None).
+Proof.
+  intro Hn.
+  assert (Hk : forall a, admins s d = Some a -> String.eqb sender a = false).
+  { intros a Ha. apply String.eqb_neq. intro. subst. contradiction. }
+  repeat split; intros; simpl;
+    repeat match goal with |- (if ?c then _ else _) = None => destruct c; auto end;
+    destruct (admins s d) as [a|] eqn:Ea; auto; rewrite (Hk a eq_refl); auto.
+Qed.
+
+(* ------------------------------------------------------------------ the statement to the letter is refuted *)
+
+Definition empty_state : st :=
+  {| admins := fun _ => None; meta := fun _ => false; bal := fun _ _ => 0; supply := fun _ => 0 |}.
+
+Definition witness_history : list op :=
+  [Create "@0" "gold"; Mint "@0" "tf/@0/gold" true 60 (TAcct "@3"); BurnNative "@3" "tf/@0/gold" true 25].
+
+Lemma strict_statement_refuted :
+  exists blocked s o s' d,
+    step blocked s o = Some s' /\ validate_denom d = true /\ supply s' d <> supply s d /\
+    admins s d <> Some (sender_of o) /\ ~ supply_mover s s' o d.
+Proof.
+  set (s2 := fst (run [] empty_state (firstn 2 witness_history))).
+  exists [], s2, (BurnNative "@3" "tf/@0/gold" true 25).
+  destruct (step [] s2 (BurnNative "@3" "tf/@0/gold" true 25)) as [s3|] eqn:E; [|vm_compute in E; discriminate].
+  exists s3, "tf/@0/gold". split; auto.
+  assert (Hs3 : supply s3 "tf/@0/gold" = 35) by (vm_compute in E; inversion E; subst; reflexivity).
+  assert (Hs2 : supply s2 "tf/@0/gold" = 60) by (vm_compute; reflexivity).
+  assert (Ha : admins s2 "tf/@0/gold" = Some "@0") by (vm_compute; reflexivity).
+  split; [vm_compute; reflexivity|]. split; [rewrite Hs3, Hs2; discriminate|]. split.
+  - rewrite Ha. simpl. discriminate.
+  - intros [(sd & dv & amt & to & Ho & _)|(sd & dv & amt & fr & Ho & _)]; discriminate.
+Qed.
+
+(* ------------------------------------------------------------------ the model satisfies P (all but the tracked-sum clause) *)
+
+Definition snap_keys (ds : list string) (bs : list (string * string)) (s : st) : snap :=
+  {| sn_supply := map (fun d => (d, supply s d)) ds;
+     sn_bal := map (fun k => (fst k, snd k, bal s (fst k) (snd k))) bs;
+     sn_admin := map (fun d => (d, admins s d)) ds |}.
+
+Lemma lookup_map {V} (f : string -> V) d ds : In d ds -> lookup d (map (fun x => (x, f x)) ds) = Some (f d).
+Proof.
+  induction ds as [|x r IH]; simpl; [tauto|]. intros [H|H].
+  - subst. rewrite String.eqb_refl. reflexivity.
+  - destruct (String.eqb d x) eqn:E; auto. apply String.eqb_eq in E. subst. reflexivity.
+Qed.
+
+Lemma lookup2_map (f : string -> string -> Z) a d bs :
+  In (a, d) bs -> lookup2 a d (map (fun k => (fst k, snd k, f (fst k) (snd k))) bs) = Some (f a d).
+Proof.
+  induction bs as [|[x y] r IH]; simpl; [tauto|]. intros [H|H].
+  - inversion H; subst. rewrite !String.eqb_refl. reflexivity.
+  - destruct (String.eqb a x && String.eqb d y) eqn:E; auto. conds. subst. reflexivity.
+Qed.
+
+Lemma in_map_key {V} (f : string -> V) d v ds : In (d, v) (map (fun x => (x, f x)) ds) -> In d ds /\ v = f d.
+Proof. intro H. apply in_map_iff in H as (x & Hx & Hin). inversion Hx; subst. auto. Qed.
+
+(** the five per-message clauses of [step_P] (everything except the sum over tracked accounts) *)
+Definition step_core (strict : bool) (prev : snap) (o : op) (ok : bool) (cur : snap) : Prop :=
+  (ok = false -> cur = prev) /\
+  (forall d v', In (d, v') (sn_supply cur) ->
+     exists v, lookup d (sn_supply prev) = Some v /\ (v' <> v -> ok = true /\ supply_change_ok strict prev o d v v')) /\
+  (forall d a', In (d, a') (sn_admin cur) ->
+     exists a, lookup d (sn_admin prev) = Some a /\ (a' <> a -> ok = true /\ admin_change_ok o d a a')) /\
+  (forall sender sub, o = Create sender sub -> ok = true ->
+     lookup (tf_denom sender sub) (sn_admin prev) = Some None /\
+     lookup (tf_denom sender sub) (sn_admin cur) = Some (Some sender) /\
+     parse_denom (tf_denom sender sub) = Some (sender, sub)) /\
+  (forall acct d b', In (acct, d, b') (sn_bal cur) ->
+     exists b, lookup2 acct d (sn_bal prev) = Some b /\
+       (b' <> b -> ok = true /\ bal_change_ok o acct d b b' /\
+                   (validate_denom d = false -> acct = sender_of o /\ b' < b))).
+
+Lemma step_P_core strict prev o ok cur : step_P strict prev o ok cur -> step_core strict prev o ok cur.
+Proof. unfold step_P, step_core. tauto. Qed.
+
+Lemma model_step_core blocked ds bs s o :
+  inv s -> (forall sender sub, o = Create sender sub -> In (tf_denom sender sub) ds) ->
+  step_core false (snap_keys ds bs s) o (snd (deliver blocked s o)) (snap_keys ds bs (fst (deliver blocked s o))).
+Proof.
+  intros Hi Htr. unfold deliver. destruct (step blocked s o) as [s'|] eqn:E; simpl.
+  2:{ unfold step_core. split; [auto|]. split; [|split; [|split; [|]]].
+      - intros d v' Hin. apply in_map_key in Hin as [Hin ->]. exists (supply s d). split; [apply (lookup_map (supply s)); auto | congruence].
+      - intros d a' Hin. apply in_map_key in Hin as [Hin ->]. exists (admins s d). split; [apply (lookup_map (admins s)); auto | congruence].
+      - intros; discriminate.
+      - intros acct d b' Hin. apply in_map_iff in Hin as ([x y] & Hx & Hin). simpl in Hx. inversion Hx; subst.
+        exists (bal s acct d). split; [apply (lookup2_map (bal s)); auto | congruence]. }
+  unfold step_core. split; [discriminate|]. split; [|split; [|split]].
+  - intros d v' Hin. apply in_map_key in Hin as [Hin ->]. exists (supply s d).
+    split; [apply (lookup_map (supply s)); auto|]. intro Hne. split; auto.
+    simpl. rewrite (lookup_map (admins s)) by auto.
+    destruct (supply_step _ _ _ _ _ E Hne) as [[(sd & dv & amt & to & -> & Ha & Hs & Hp & Hv)|(sd & dv & amt & fr & -> & Ha & Hs & Hp & Hv)]|(sd & dv & amt & -> & Hs & Hp & _)];
+      simpl; repeat split; auto; try congruence. discriminate.
+  - intros d a' Hin. apply in_map_key in Hin as [Hin ->]. exists (admins s d).
+    split; [apply (lookup_map (admins s)); auto|]. intro Hne. split; auto.
+    destruct (admin_step _ _ _ _ _ Hi E Hne) as [(sd & new & nv & -> & Ha & Hn)|(sd & sub & -> & Hd & Ha & Hn & Hp)]; simpl; auto.
+  - intros sender sub Ho _. subst o. specialize (Htr sender sub eq_refl).
+    destruct (create_step _ _ _ _ _ Hi E) as (Ha & Ha' & Hp & _). simpl.
+    rewrite (lookup_map (admins s)), (lookup_map (admins s')) by auto. rewrite Ha, Ha'. auto.
+  - intros acct d b' Hin. apply in_map_iff in Hin as ([x y] & Hx & Hin). simpl in Hx. inversion Hx; subst.
+    exists (bal s acct d). split; [apply (lookup2_map (bal s)); auto|]. intro Hne. split; auto. split.
+    + destruct (balance_step _ _ _ _ _ _ E Hne) as [(sd & dv & amt & to & -> & Ha & Hr & Hb & _)|[(sd & dv & amt & fr & -> & Ha & Hr & Hb & Hp & Hle & _)|(dv & amt & -> & Hb & Hp & Hle)]];
+        simpl; repeat split; auto; lia.
+    + intro Hv. destruct (non_tf_step _ _ _ _ _ Hv E) as (_ & Hle & Hlt).
+      specialize (Hle acct). destruct (Hlt acct) as [Hs _]; [lia|]. split; auto. lia.
+Qed.
+
+(* ------------------------------------------------------------------ non-vacuity *)
+
+Definition ex_history : list op :=
+  [ Create "@0" "gold";
+    Mint "@0" "tf/@0/gold" true 100 TDefault;
+    Mint "@1" "tf/@0/gold" true 5 TDefault;                 (* not the admin *)
+    Mint "@0" "tf/@0/gold" true 40 (TAcct "@4");            (* blocked module account *)
+    ChangeAdmin "@0" "tf/@0/gold" "@1" true;
+    Mint "@0" "tf/@0/gold" true 5 TDefault;                 (* former admin *)
+    Burn "@1" "tf/@0/gold" true 30 (TAcct "@0");            (* new admin burns from a holder *)
+    Create "@0" "gold";                                     (* once only *)
+    Mint "@1" "tf/@0/gold/x" true 5 TDefault;               (* look-alike *)
+    Mint "@1" "unibi" true 5 TDefault;                      (* not a tf denom *)
+    BurnNative "@0" "tf/@0/gold" true 20 ].                 (* own coins *)
+
+Example history_nonvacuous :
+  snd (run ["@4"] empty_state ex_history) = [true; true; false; false; true; false; true; false; false; false; true]
+  /\ supply (fst (run ["@4"] empty_state ex_history)) "tf/@0/gold" = 50
+  /\ bal (fst (run ["@4"] empty_state ex_history)) "@0" "tf/@0/gold" = 50
+  /\ admins (fst (run ["@4"] empty_state ex_history)) "tf/@0/gold" = Some "@1".
+Proof. vm_compute. auto. Qed.
+
+Example inv_nonvacuous : inv empty_state.
+Proof. intros d H. simpl in H. congruence. Qed.
+
+Example parse_nonvacuous :
+  parse_denom "tf/@0/gold" = Some ("@0", "gold") /\ parse_denom "tf/@0/gold/x" = None /\
+  parse_denom "tf//gold" = None /\ parse_denom "TF/@0/gold" = None /\ parse_denom "unibi" = None /\
+  parse_denom "tf/@0/" = None.
+Proof. vm_compute. auto 10. Qed.
